@@ -9,7 +9,9 @@ text, registers, flags, memory digest, count, structured trace, rendered trace a
 paired and TLC validates agreement; pipe descriptor numbers are normalised away (the only permitted difference)."""
 import hashlib
 import json
+import os
 import random
+import subprocess
 
 import c10
 import c11
@@ -186,6 +188,36 @@ def pair_events(order, by, suffix_a, suffix_b, pair, judge_from):
     return out
 
 
+def taint_phase(rep, n, length, seed, wd, jobs):
+    """programs on two machines with only a SUBSET of the registers written (axv two); Trace_Taint carries the taint set"""
+    out = os.path.join(wd, "two.ndjson")
+    p = subprocess.run([vlib.AXV, "two", str(n), str(length), str(seed), os.path.join(vlib.VERIF, "spec", "forms.json"), out],
+                       timeout=3600, stdout=subprocess.PIPE, stderr=subprocess.PIPE, text=True)
+    if p.returncode != 0:
+        raise vlib.ToolError(f"two-run harness failed rc={p.returncode}: {p.stderr[-300:]}")
+    events = [json.loads(l) for l in open(out)]
+    progs, by = [], {}
+    for e in events:
+        if e["ev"] == "reset":
+            progs.append([])
+        progs[-1].append({k: v for k, v in e.items() if k not in ("erra", "errb", "text", "program", "written", "start")})
+        by.setdefault(e["c"], []).append(e)
+    chunks = [[e for pr in g for e in pr] for g in vlib.chunks(progs, jobs) if g]
+    verdicts = vlib.tlc_trace_parallel("Trace_Taint", "Trace_Taint.cfg", chunks, wd, "tt", jobs, timeout=3000)
+    for v in verdicts:
+        c, k, code, comps, locs = vlib.parse_tla_tuple(v)
+        evs = by[c]
+        st = next((e for e in evs if e["ev"] == "step" and e["n"] == k), None)
+        rep.finding(f"partially-written/{code}/{'+'.join(sorted(comps))}",
+                    {"two": True, "n": n, "length": length, "seed": seed, "program": c, "step": k, "differs_in": sorted(comps), "locations": sorted(locs),
+                     "unwritten_registers": evs[0]["unwritten"], "explicitly_written": evs[0]["written"], "program_bytes": evs[0]["program"],
+                     "start": evs[0]["start"], "instruction": st and st["text"], "summary": st and {x: st[x] for x in ("reads", "wfull", "wpart", "fw", "fu", "mr", "mw")},
+                     "error_a": st and st["erra"][:600], "error_b": st and st["errb"][:600]})
+    steps = [e for e in events if e["ev"] == "step"]
+    return {"programs": len(progs), "steps": len(steps), "forms": len({e["code"] for e in steps}),
+            "failing_steps_compared": sum(1 for e in steps if e["outa"] != "ok")}
+
+
 def run(tier, seed):
     rep = vlib.Report(PROP, tier, seed, "model_checking")
     rng = random.Random(seed)
@@ -205,6 +237,18 @@ def run(tier, seed):
             os.remove(vlib.SPEC + "/.MC_TwoRun_nv.cfg")
         if nv["ok"]:
             raise vlib.ToolError("MC_TwoRun: 'all registers agree' holds without the taint condition (model vacuous?)")
+        mt = vlib.tlc_mc("MC_Taint", "MC_Taint.cfg", wd, workers=8, constants={"MaxSteps": "3" if q else "4"}, timeout=3000, coverage=False)
+        vlib.require_mc_ok(mc, "MC_Taint")
+        tp = taint_phase(rep, 1500 if q else 20000, 12, seed + 300, wd, 8 if q else 14)
+        # one-instruction programs: every form a few times with exactly its read set written
+        for nn, ll, sd in ((2500, 1, 302),) if q else ((40000, 1, 302), (3000, 30, 301)):
+            tp2 = taint_phase(rep, nn, ll, seed + sd, wd, 8 if q else 14)
+            tp = {k: tp[k] + tp2[k] if k != "forms" else max(tp[k], tp2[k]) for k in tp}
+        rep.cov["partially_written_registers"] = dict(tp, taint_model_states=mt["distinct"],
+            rule="program = seeded sequence over spec/forms.json (12 instructions, or a single one) run on two machines with the same explicit "
+                 "inputs; written registers: a random 10-80%, or exactly the registers the program reads; per step the instruction's data-flow summary (iced InstructionInfo) and where the machines differ; Trace_Taint "
+                 "carries the taint set (TwoRun!TaintG, noninterference model-checked in MC_Taint) and demands agreement of outcome, error "
+                 "text, RIP, count, log and of every untainted register / flag / memory")
         scs = build_scenarios(rng, q)
         # process 1: every scenario twice in a row (#a, #b); process 2: once (#c)
         f1 = []
@@ -243,7 +287,9 @@ def run(tier, seed):
                     "aliased symbols)",
             "samples": [{"id": scs[0]["id"], "actions": scs[0]["actions"][:25]}],
         })
-        rep.assumptions += ["every register the constructor randomises (GPR, XMM) is written explicitly before use, so the taint set is empty",
+        rep.assumptions += ["scenario phase: every register the constructor randomises (GPR, XMM) is written explicitly before use, so the taint set is empty",
+                            "program phase: iced's InstructionInfo (registers / flags / memory read and written) is the data-flow oracle; taint at "
+                            "64-bit register granularity and one bit for all of memory (conservative: fewer comparisons, never a wrong one)",
                             "pipe descriptor numbers are masked in registers, results, handler state and 8-byte memory cells",
                             "to_string() is not compared (it prints the hook table in HashMap order, which the property does not list)"]
         return rep.finish()
@@ -252,4 +298,16 @@ def run(tier, seed):
 
 
 def replay(path, seed):
+    case = json.load(open(path))["case"]
+    if case.get("two"):
+        rep = vlib.Report(PROP, "quick", seed, "model_checking")
+        wd = vlib.workdir("c20r")
+        try:
+            rep2 = vlib.Report(PROP, "quick", seed, "model_checking")
+            taint_phase(rep2, case["n"], case["length"], case["seed"], wd, 1)
+            rep.violations = [(k, r) for k, r in rep2.violations if r["program"] == case["program"] and r["step"] == case["step"]]
+            rep.cov.update({"states": 1, "transitions": 1, "traces_validated_against_impl": 1, "samples": [case["instruction"]]})
+            return rep.finish()
+        finally:
+            vlib.cleanup(wd)
     raise vlib.ToolError("re-run the check with the same VERIF_SEED")
